@@ -7,13 +7,15 @@ class C05(EditProp):
     props_file = "props/C05.v"
     design_ref = "DESIGN.md §4 C05, §8"
     level_text = ("Coq theorems, for every finite history of add / insert(i) / remove(i) (every index, in and out of range) interleaved with "
-                  "the field edits of C04, from the empty document or any parsed well-formed document (any live document): the live object "
+                  "the field edits of C04 in C04's full domain (rename of any field, also one without value: the tree is then the live layout's tree "
+                  "up to the empty VALUE tokens Entry::new writes, LiveTree.live_tree; C05_history_exact: exactly that tree when every renamed field "
+                  "carries a value), from the empty document or any parsed well-formed document (any live document): the live object "
                   "reports exactly the list-model content (push, insert(i) with append beyond the end, remove(i) with no-op beyond the end); "
                   "each step changes the layout exactly as a_add/a_insert_para/a_remove_para say (new empty paragraph + one blank line, resp. the "
                   "removed paragraph + one following blank line; every other paragraph, comment and blank line untouched, except that appending "
                   "first terminates an unterminated last line); the result is again a live document, so paragraphs stay separated by a blank "
                   "line and the printed text re-reads without error to the same non-empty paragraphs in order. Handle aliasing (the Paragraph "
-                  "returned by add/insert edits the document) is checked by the deb822-edit stream. Handles: the store-level model (props/C04H.v, C05_handles_history) shows the same for histories issued through handles obtained at any earlier time, including the paragraph handles returned by add/insert_paragraph.")
+                  "returned by add/insert edits the document) is checked by the deb822-edit stream. Handles: the store-level model (props/C04H.v, C05_handles_history_every / C05_handles_history) shows the same for histories issued through handles obtained at any earlier time, including the paragraph handles returned by add/insert_paragraph.")
     level_note = "Model: Deb822::{add_paragraph, insert_paragraph, remove_paragraph, convert_index, delete_trailing_space, FromIterator} in src/lossless.rs over coq/model/Deb822Edit.v."
     rule = ("deb822-edit: initial document (new / from pairs / parsed well-formed document incl. leading/trailing comments, several blank lines, "
             "missing final newline) x random history (1-12 ops) of add/insert(i)/remove(i) with i in and out of range interleaved with field edits; "
@@ -23,6 +25,7 @@ class C05(EditProp):
     assumptions = ["a freshly added paragraph is empty and prints nothing: the re-read clause compares the non-empty paragraphs"]
     def streams(self, tier, rng):
         n = {"quick": 6000, "search": 20000, "thorough": 200000}[tier]
+        yield "deb822-edit", gen_edit.corpus_cases()
         yield "deb822-edit", gen_edit.edit_cases(n, rng, "p", para_ops=True)
         yield from self.store_streams(tier, rng)
 
